@@ -73,6 +73,10 @@ def run(repo: Repo, chk: Check):
     chk.guarded(r06h, repo, chk, "R01.k")
     from .c06 import r06g
     chk.guarded(r06g, repo, chk, "R01.n")
+    chk.rule("R01.o", "a stack kept by a pass while it compiles a construct is popped on every path to the handler's return, so break / continue and "
+                      "nested constructs read their own entry (shared with R05.g)", floor=1)
+    from .shared import rule_stack_balance
+    chk.guarded(rule_stack_balance, repo, chk, "R01.o")
     from .c03 import fold_table_rows
     chk.guarded(fold_table_rows, repo, chk, "R01.j", "R01.j")
 
